@@ -199,6 +199,9 @@ def run_cbmc(job):
             res["nprops"] += 1
             if "WITNESS" in desc:
                 witness = st
+            elif " MUSTFAIL " in " " + desc:
+                if st != "FAILURE":      # proved although it must be refutable: independence -> violation
+                    res["failed"].append((pid, desc + " [proved, but must be refutable]"))
             elif st != "SUCCESS":
                 if "unwinding assertion" in desc or ".unwind." in pid:
                     unwind_fail.append((pid, desc))
